@@ -38,7 +38,7 @@
    of linearizability ([c02_holds]). *)
 
 From Coq Require Import List String Bool.
-From Gogu Require Import Base Lock Lin Atomic CsShape C02_Model C02_Proofs C02_Proofs2.
+From Gogu Require Import Base Lock Lin Atomic CsShape C02_Model C02_Proofs C02_Proofs2 C02_Corollaries.
 From Gogu Require C05_Model C06_Model.
 From GoguGen Require Import Skeletons.
 Import ListNotations.
@@ -246,6 +246,22 @@ Theorem C02_replay_is_atomic_commit_execution :
       Lin.replay St opr resr step s0 (Lin.lin_calls St opr resr st) = (s, Lin.lin_results St opr resr st).
 Proof. exact (fun St => @replay_is_atomic_commit_execution St). Qed.
 Print Assumptions C02_replay_is_atomic_commit_execution.
+
+(* ====================================================================== *)
+(* (E) "an insert-only-if-absent is granted to exactly one of several racing callers"  *)
+(* ====================================================================== *)
+
+(* On the cache machine: any number (>= 1) of Sets of one key that has no entry, run one at a
+   time — in any order, they are all Sets of that key — : exactly one returns nil, every other
+   returns "already exists".  By (C) a concurrent execution of such calls returns what one of
+   these sequential runs returns, whatever the interleaving.  (The companion clause "no element
+   is double-counted" for racing Trie.Put of one key is C09_size_is_distinct_keys applied to the
+   linearization, with [C02_Corollaries.put_counts] as its one-step form.) *)
+Theorem C02_racing_sets_grant_exactly_one : forall st k v vs, absent st k ->
+  let rs := snd (seq_run ca_step st (map (set_op k) (v :: vs))) in
+  List.length (filter granted rs) = 1%nat /\ List.length (filter refused rs) = List.length vs.
+Proof. exact sets_grant_exactly_one. Qed.
+Print Assumptions C02_racing_sets_grant_exactly_one.
 
 (* ---- non-vacuity: a slice stack whose Pop is two micro-steps (read the top under the lock,
         then truncate), its critical sections computing the machine's step; and a concrete
